@@ -813,6 +813,7 @@ def check_C11(res, tier, seed):
     mc_part(res, "Notify", "Notify", label="C11.MC.NoStaleNotification",
             required_actions=["Assign", "Propagate", "AddPropagator"])
     mc_part(res, "Notify", "Notify_asfound", expect_ok=False)
+    proof_part(res, "NotifyProofs", ["Notify"])
 
     def rec(d):
         build_harness()
